@@ -90,6 +90,14 @@ pub fn run_roots(r: &mut Rec) {
             }
         }
     }
+    // a small odd value shifted left: few significant bits (exact in f64), long zero tails, the true root often within a hair
+    // of the next integer - every shift from just below 2^64 to beyond the 53-bit window of a double's square root
+    for (mi, m) in [3u64, 5, 7, 11, 0x1f_ffff, ((1 << 26) + 1) * ((1 << 26) + 1) - 1].into_iter().enumerate() {
+        for k in (58u32..=112).step_by(if r.thorough { 1 } else { 2 }) {
+            let v = BigUint::from(m) << (k + (mi as u32 % 2));
+            root_case(r, &format!("small {} << {}", m, k), &v, &[2, 3]);
+        }
+    }
     // bit lengths around 64, 128, 1024 (f64 guess finite up to 2^1024) and beyond (scaled recursive path)
     for bits in [63u32, 64, 65, 127, 128, 129, 511, 1000, 1023, 1024, 1025, 1026, 1100, 2047, 2048, 2049, 3000, 4097] {
         if !r.thorough && bits > 2100 {
@@ -245,6 +253,46 @@ pub fn run_pow(r: &mut Rec) {
                 if e <= emax {
                     pow_forms(r, e, rg.below(4));
                 }
+            }
+        }
+    }
+    // long and sparse bases: the squarings and the multiply steps of the exponent loop then run through the Karatsuba and
+    // Toom-3 regimes with factors of very different length, with zero digits at the split points and with accumulators
+    // that are not empty on entry
+    {
+        let mut cases: Vec<(String, Vec<u64>, Vec<u128>)> = vec![];
+        // 2^6400 + m, a zero run ending exactly at the middle digit, alternating zero digits
+        let mut b = vec![0u64; 101];
+        b[0] = 0x1234_5678_9abc_def1;
+        b[100] = 1;
+        cases.push(("2^6400+m".into(), b, vec![2, 3, 5]));
+        let mut b = digits(&mut rng, 130, Pat::Random);
+        for d in b.iter_mut().take(65).skip(40) {
+            *d = 0;
+        }
+        b[64] = 0;
+        cases.push(("zero run to the middle".into(), b, vec![2, 3]));
+        cases.push(("2^128+1".into(), vec![1, 0, 1], vec![64, 128, 129]));
+        let mut b = vec![0u64; 70];
+        for k in (0..70).step_by(2) {
+            b[k] = u64::MAX - k as u64;
+        }
+        cases.push(("alternating zero digits".into(), b, vec![2, 3, 4]));
+        // a Toom-3 sized base whose square has exactly twice its length: x^3 = x^2 * x multiplies 2n by n digits
+        let mut b = digits(&mut rng, 260, Pat::Random);
+        b[259] = u64::MAX - 5;
+        cases.push(("260 digits".into(), b, if r.thorough { vec![3, 5] } else { vec![3] }));
+        for (name, d, es) in cases {
+            for e in es {
+                if !r.case(&format!("long base {} ^{}", name, e)) {
+                    continue;
+                }
+                load_u(r, 0, &d);
+                load_i_from_u(r, 0, if e % 2 == 1 { Sign::Minus } else { Sign::Plus }, 0);
+                let x = e as u32;
+                let ex = format!("\"sc\":{}", sc_list(&[x.sc()]));
+                r.u1("pow", "ref_u32", &ex, 0, 2, |a| Pow::pow(a, x));
+                r.i1("pow", "inherent_u32", &ex, 0, 2, |a| a.pow(x));
             }
         }
     }
@@ -568,6 +616,29 @@ pub fn run_sign(r: &mut Rec) {
                     load_i_from_u(r, 1, sb, 1);
                     sign_forms(r);
                 }
+            }
+        }
+    }
+    // the boundary bank: every ordered pair of magnitudes at the primitive edges with every sign pair (a shortcut through
+    // i64 / i128 arithmetic is wrong exactly where a difference or a negation leaves the primitive's range)
+    let bank: Vec<Vec<u64>> = vec![vec![], vec![1], vec![3], vec![(1 << 63) - 1], vec![1 << 63], vec![u64::MAX], vec![0, 1], vec![0, 1 << 62], vec![u64::MAX, (1 << 63) - 1],
+                                   vec![0, 1 << 63], vec![1, 1 << 63], vec![u64::MAX, u64::MAX], vec![0, 0, 1]];
+    for (ka, a) in bank.iter().enumerate() {
+        for (kb, b) in bank.iter().enumerate() {
+            if !r.thorough && (ka * 7 + kb * 3) % 4 != 0 && ka != kb {
+                continue;
+            }
+            if !r.case(&format!("bank {} {}", ka, kb)) {
+                continue;
+            }
+            load_u(r, 0, a);
+            load_u(r, 1, b);
+            for (sa, sb) in [(Sign::Plus, Sign::Plus), (Sign::Minus, Sign::Plus), (Sign::Plus, Sign::Minus), (Sign::Minus, Sign::Minus)] {
+                load_i_from_u(r, 0, sa, 0);
+                load_i_from_u(r, 1, sb, 1);
+                r.ii("abs_sub", "signed", 0, 1, 2, |a, b| a.abs_sub(b));
+                r.ii("abs_sub", "signed", 1, 0, 2, |a, b| a.abs_sub(b));
+                crate::drivers::history::obs_i(r, 0, 1);
             }
         }
     }
